@@ -6,9 +6,9 @@ import NetqasmVerif.Lemmas.TranspileSem
 namespace NQ.Tr
 open NQ
 
-/-- the registers `get_unused_register` can hand out somewhere in `S` (all in the Q bank) -/
-def ScratchSet (S : List Instr) (r : Reg) : Prop :=
-  ∃ p, p < S.length ∧ getUnused ((S.take (p + 1)).flatMap topRegs) = .ok r
+/-- the registers `get_unused_register` hands out at some two-qubit gate of `S` (all in the Q bank) -/
+def ScratchSet (cfg : Cfg) (S : List Instr) (r : Reg) : Prop :=
+  ∃ p x, S[p]? = some x ∧ isGate2 cfg x = true ∧ getUnused ((S.take (p + 1)).flatMap topRegs) = .ok r
 
 /-- the simulation relation at vanilla position `pc`: same memory (arrays, quantum state, …),
 same registers except Q registers the pass borrows as scratch somewhere in the program, and every Q
@@ -17,7 +17,7 @@ both machines -/
 structure Rel {μ : Type} (cfg : Cfg) (S : List Instr) (pc : Nat) (s u : St μ) : Prop where
   mem : s.mem = u.mem
   /-- all registers agree, except possibly Q registers that the pass borrows somewhere in `S` -/
-  outside : ∀ r, (r.bank ≠ bankQ ∨ ¬ ScratchSet S r) → s.regs r = u.regs r
+  outside : ∀ r, (r.bank ≠ bankQ ∨ ¬ ScratchSet cfg S r) → s.regs r = u.regs r
   known : ∀ r v, K cfg S pc r = some v → s.regs r = some v ∧ u.regs r = some v
 
 theorem Rel.init {μ : Type} (cfg : Cfg) (S : List Instr) (s : St μ) : Rel cfg S 0 s s :=
@@ -32,28 +32,44 @@ theorem topRegs_sub_regsOf (x : Instr) : ∀ r ∈ topRegs x, r ∈ regsOf x := 
   cases o <;> simp [opReg?] at hro
   subst hro; simp [regsOfOperand]
 
+theorem not_scratchSet_of_not_mem {cfg : Cfg} {S : List Instr} {r : Reg} (h : r ∉ scratchRegs cfg S) :
+    ¬ ScratchSet cfg S r := by
+  intro ⟨p, x, hx, hg2, hg⟩
+  apply h
+  unfold scratchRegs
+  have hp : p < S.length := (List.getElem?_eq_some_iff.1 hx).1
+  exact List.mem_filterMap.2 ⟨p, List.mem_range.2 hp, by simp [hx, hg2, hg]⟩
+
 /-- on a `QStatic` program, both machines agree on every register a non-`set` instruction names -/
 theorem regs_agree {μ : Type} {cfg : Cfg} {S : List Instr} {pc : Nat} {s u : St μ} {x : Instr}
-    (hR : Rel cfg S pc s u) (hq : qstaticAt cfg (targets cfg S) (S.take pc).reverse x = true)
+    (hR : Rel cfg S pc s u) (hq : qstaticAt cfg (targets cfg S) (scratchRegs cfg S) (S.take pc).reverse x = true)
     (hs : setOf cfg x = none) : ∀ r ∈ regsOf x, s.regs r = u.regs r := by
   intro r hr
   unfold qstaticAt at hq
   simp only [hs, Option.isSome_none, Bool.false_or, Bool.and_eq_true, List.all_eq_true] at hq
   have := hq.1 r hr
   by_cases hb : r.bank = bankQ
-  · simp only [hb, bne_self_eq_false, Bool.false_or] at this
-    obtain ⟨v, hv⟩ := Option.isSome_iff_exists.1 this
-    have := hR.known r v hv
-    rw [this.1, this.2]
+  · simp only [hb, bne_self_eq_false, Bool.false_or, Bool.or_eq_true, Bool.and_eq_true,
+      Bool.not_eq_eq_eq_not, Bool.not_true] at this
+    rcases this with hw | ⟨_, hsc⟩
+    · obtain ⟨v, hv⟩ := Option.isSome_iff_exists.1 hw
+      have := hR.known r v hv
+      rw [this.1, this.2]
+    · have hnm : r ∉ scratchRegs cfg S := by
+        intro hm
+        rw [List.contains_iff_mem.2 hm] at hsc
+        cases hsc
+      exact hR.outside r (Or.inr (not_scratchSet_of_not_mem hnm))
   · exact hR.outside r (Or.inl hb)
 
 theorem known_of_qstatic {cfg : Cfg} {S : List Instr} {pc : Nat} {x : Instr}
-    (hq : qstaticAt cfg (targets cfg S) (S.take pc).reverse x = true) (hs : setOf cfg x = none)
+    (hq : qstaticAt cfg (targets cfg S) (scratchRegs cfg S) (S.take pc).reverse x = true) (hs : setOf cfg x = none)
+    (hg : isGate cfg x = true)
     {r : Reg} (hr : r ∈ regsOf x) (hb : r.bank = bankQ) : ∃ v, K cfg S pc r = some v := by
   unfold qstaticAt at hq
   simp only [hs, Option.isSome_none, Bool.false_or, Bool.and_eq_true, List.all_eq_true] at hq
   have := hq.1 r hr
-  simp only [hb, bne_self_eq_false, Bool.false_or] at this
+  simp only [hb, bne_self_eq_false, Bool.false_or, hg, Bool.not_true, Bool.false_and, Bool.or_false] at this
   exact Option.isSome_iff_exists.1 this
 
 theorem win_mem_used {cfg : Cfg} {tg : List Int} {r : Reg} : ∀ (pre : List Instr) (v : Int),
@@ -239,7 +255,7 @@ theorem sim_step {μ : Type} {M : Sem μ} {cfg : Cfg} {S out : List Instr} {cs :
         intro r hr v hv
         rw [hrv] at hv
         by_cases hb : r.bank = bankQ
-        · obtain ⟨v', hv'⟩ := known_of_qstatic hqs hsn (topRegs_sub_regsOf x r hr) hb
+        · obtain ⟨v', hv'⟩ := known_of_qstatic hqs hsn hg (topRegs_sub_regsOf x r hr) hb
           have := win_lookup hb _ v' hv'
           rw [List.reverse_reverse, hv] at this
           simp only [Option.some.injEq] at this
@@ -262,7 +278,7 @@ theorem sim_step {μ : Type} {M : Sem μ} {cfg : Cfg} {S out : List Instr} {cs :
           intro r hr
           have hb : r.bank = bankQ := by
             simpa using (List.all_eq_true.1 hallQ) r hr
-          obtain ⟨v', hv'⟩ := known_of_qstatic hqs hsn (topRegs_sub_regsOf x r hr) hb
+          obtain ⟨v', hv'⟩ := known_of_qstatic hqs hsn hg (topRegs_sub_regsOf x r hr) hb
           have := win_lookup hb _ v' hv'
           rw [List.reverse_reverse] at this
           rw [this]; rfl
@@ -302,10 +318,10 @@ theorem sim_step {μ : Type} {M : Sem μ} {cfg : Cfg} {S out : List Instr} {cs :
         have h1' : s'.regs r = s.regs r := C.hL.frame x s s' r he (by rw [hwn]; simp)
         have h2' : u'.regs r = u.regs r := by
           apply hregs
-          intro s0 hs0 heq
+          intro hg2' s0 hs0 heq
           rcases hb with hb | hb
           · exact hb (heq ▸ (getUnused_fresh hs0).2)
-          · exact hb ⟨pc, hp, by simpa [heq] using hs0⟩
+          · exact hb ⟨pc, x, hx, by simp [isGate2, hi, hg2'], by simpa [heq] using hs0⟩
         rw [h1', h2']; exact hR.outside r hb
       · intro r v hk
         rw [K_succ hx, hsn, hwn] at hk
@@ -316,7 +332,7 @@ theorem sim_step {μ : Type} {M : Sem μ} {cfg : Cfg} {S out : List Instr} {cs :
           have h1' : s'.regs r = s.regs r := C.hL.frame x s s' r he (by rw [hwn]; simp)
           have h2' : u'.regs r = u.regs r := by
             apply hregs
-            intro s0 hs0 heq
+            intro _ s0 hs0 heq
             have hmu := K_mem_used hk
             have hfresh := (getUnused_fresh hs0).1
             apply hfresh
